@@ -400,3 +400,99 @@ Print Assumptions tie_arb_init.
 Theorem tie_arb_init_defaults : forall N, gen_arb_init_default_granularity N = VNone.
 Proof. reflexivity. Qed.
 Print Assumptions tie_arb_init_defaults.
+
+(* ================================================================== sequences of Decoder.add calls *)
+
+(* one add() call as harness/engines/wbdec.py makes it (it catches the exception and goes on with the next one):
+   flipped?, geometry, identity of the interface's memory map, name, addr, sparse *)
+Definition wb_att (N : Type) : Type := (bool * wbgeom * Z * option N * pyint * bool)%type.
+Definition att_obj {N} (a : wb_att N) : bobj := let '(fl, g, wm, _, _, _) := a in OWb fl g (Some wm).
+
+Fixpoint wb_adds (M N F : Type) add_window (order : list string) (bus : bobj) (h : M) (subs : list (Z * bobj))
+  (l : list (wb_att N)) : (M * list (Z * bobj)) * list (res (Z * Z * Z)) :=
+  match l with
+  | [] => ((h, subs), [])
+  | a :: l' =>
+      let '(fl, g, wm, nm, ad, sp) := a in
+      let '((h', subs'), r) := gen_wb_dec_add M N F add_window order bus h subs (att_obj a) nm ad sp in
+      let '(st, rs) := wb_adds M N F add_window order bus h' subs' l' in (st, r :: rs)
+  end.
+
+(* the model's view of an attempt and of what it returned; waw = address width of the interface's memory map *)
+Definition m_att {N} (waw : Z -> Z) (a : wb_att N) (r : res (Z * Z * Z)) : WbDecoder.attempt :=
+  let '(_, g, wm, _, _, sp) := a in
+  (wgeom g, sp,
+   match r with
+   | Ok (s, e, ratio) => Some {| WbDecoder.w_start := s; WbDecoder.w_stop := e; WbDecoder.w_ratio := ratio;
+                                 WbDecoder.w_aw := waw wm |}
+   | Err _ => None
+   end).
+Fixpoint m_atts {N} (waw : Z -> Z) (l : list (wb_att N)) (rs : list (res (Z * Z * Z))) : list WbDecoder.attempt :=
+  match l, rs with
+  | a :: l', r :: rs' => m_att waw a r :: m_atts waw l' rs'
+  | _, _ => []
+  end.
+
+(* the attempts that returned normally, in call order *)
+Fixpoint accepted {N} (l : list (wb_att N)) (rs : list (res (Z * Z * Z))) : list (wb_att N) :=
+  match l, rs with
+  | a :: l', Ok _ :: rs' => a :: accepted l' rs'
+  | _ :: l', Err _ :: rs' => accepted l' rs'
+  | _, _ => []
+  end.
+
+(* after any sequence of add() calls on interfaces that have memory maps: (1) the verdicts of add()'s own rules are
+   the model's add_verdicts; (2) the subordinates the model's `added` keeps are exactly the calls that returned
+   normally, with their geometry and sparse flag, in call order; (3) `_subs` holds exactly those, stored under
+   their memory maps in that order.  Whatever add_window does. *)
+Theorem tie_wb_added : forall M N F add_window order fl d dm waw (l : list (wb_att N)) h subs,
+  Permutation order gen_wb_dec_add_set_1 ->
+  let '((h', subs'), rs) := wb_adds M N F add_window order (OWb fl d (Some dm)) h subs l in
+  let atts := m_atts waw l rs in
+  WbDecoder.add_verdicts (wgeom d) atts = map (fun a => let '(_, g, _, _, _, sp) := a in
+                                                        WbDecoder.add_ok (wgeom d) (wgeom g) sp) l /\
+  map (fun s => (WbDecoder.s_geom s, WbDecoder.s_sparse s)) (WbDecoder.added (wgeom d) atts) =
+    map (fun a => let '(_, g, _, _, _, sp) := a in (wgeom g, sp)) (accepted l rs) /\
+  subs' = fold_left (fun acc a => let '(_, _, wm, _, _, _) := a in dict_store wm (att_obj a) acc) (accepted l rs) subs.
+Proof.
+  intros * Hperm. revert h subs.
+  induction l as [|[[[[[sfl g] wm] nm] ad] sp] l IH]; intros h subs; cbn [wb_adds].
+  - cbn. repeat split.
+  - unfold att_obj at 1. rewrite (tie_wb_dec_add _ _ _ _ _ _ _ _ _ _ _ _ _ _ Hperm).
+    unfold WbDecoder.add_verdicts, WbDecoder.added in *.
+    assert (Hgo : forall h1 subs1 r1,
+      (match r1 with Ok _ => true | Err _ => false end = false -> subs1 = subs) ->
+      (forall x, r1 = Ok x -> WbDecoder.add_ok (wgeom d) (wgeom g) sp = true /\
+                              subs1 = dict_store wm (OWb sfl g (Some wm)) subs) ->
+      let '(h', subs', rs) :=
+        let '(st, rs) := wb_adds M N F add_window order (OWb fl d (Some dm)) h1 subs1 l in (st, r1 :: rs) in
+      map (fun '(g0, sp0, _) => WbDecoder.add_ok (wgeom d) g0 sp0)
+        (m_atts waw ((sfl, g, wm, nm, ad, sp) :: l) rs) =
+      map (fun '(_, g0, _, _, _, sp0) => WbDecoder.add_ok (wgeom d) (wgeom g0) sp0) ((sfl, g, wm, nm, ad, sp) :: l) /\
+      map (fun s0 => (WbDecoder.s_geom s0, WbDecoder.s_sparse s0))
+        (flat_map (fun '(g0, sp0, ow) =>
+           if WbDecoder.add_ok (wgeom d) g0 sp0
+           then match ow with
+                | Some w => [{| WbDecoder.s_geom := g0; WbDecoder.s_sparse := sp0; WbDecoder.s_win := w |}]
+                | None => []
+                end
+           else []) (m_atts waw ((sfl, g, wm, nm, ad, sp) :: l) rs)) =
+      map (fun '(_, g0, _, _, _, sp0) => (wgeom g0, sp0)) (accepted ((sfl, g, wm, nm, ad, sp) :: l) rs) /\
+      subs' = fold_left (fun acc '((_, _, wm0, _, _, _) as a) => dict_store wm0 (att_obj a) acc)
+                (accepted ((sfl, g, wm, nm, ad, sp) :: l) rs) subs).
+    { intros h1 subs1 r1 Herr Hok. specialize (IH h1 subs1).
+      destruct (wb_adds M N F add_window order (OWb fl d (Some dm)) h1 subs1 l) as [[h' subs'] rs].
+      destruct IH as (IH1 & IH2 & IH3).
+      cbn [m_atts m_att accepted map flat_map fold_left att_obj]. rewrite IH1.
+      destruct r1 as [[[s e] ratio]|e1].
+      - destruct (Hok _ eq_refl) as [Eok ->]. rewrite Eok. cbn [app map WbDecoder.s_geom WbDecoder.s_sparse].
+        rewrite IH2. cbn [fold_left att_obj]. repeat split. exact IH3.
+      - rewrite (Herr eq_refl) in IH3.
+        destruct (WbDecoder.add_ok (wgeom d) (wgeom g) sp); cbn [app]; rewrite IH2; repeat split; exact IH3. }
+    destruct (WbDecoder.add_ok (wgeom d) (wgeom g) sp) eqn:Eok.
+    + destruct (add_window h dm wm nm ad (Some sp)) as [[h1 r]|e1].
+      * apply Hgo; [discriminate|]. intros x Hx. split; reflexivity.
+      * apply Hgo; [reflexivity|discriminate].
+    + apply Hgo; [reflexivity|discriminate].
+Qed.
+Print Assumptions tie_wb_added.
